@@ -1008,3 +1008,109 @@ Proof.
       unfold log1. rewrite mine_app, mine_tag_other, app_nil_r; [reflexivity|].
       intros E. apply Hns. left. exact E.
 Qed.
+
+Lemma all3_nth : forall {A B C} (P : A -> B -> C -> Prop) la lb lc i a,
+  all3 P la lb lc -> nth_error la i = Some a ->
+  exists b c, nth_error lb i = Some b /\ nth_error lc i = Some c /\ P a b c.
+Proof.
+  intros A B C P la lb lc i a H. revert i. induction H as [| a0 b0 c0 la lb lc Hp H IH]; intros i Hn.
+  - destruct i; discriminate.
+  - destruct i as [|i]; cbn [nth_error] in *.
+    + injection Hn as <-. eauto.
+    + apply IH. exact Hn.
+Qed.
+
+Lemma all3_impl_idx : forall {A B C} (P Q : A -> B -> C -> Prop) la lb lc,
+  (forall j a b c, nth_error la j = Some a -> nth_error lb j = Some b -> nth_error lc j = Some c ->
+                   P a b c -> Q a b c) ->
+  all3 P la lb lc -> all3 Q la lb lc.
+Proof.
+  intros A B C P Q la lb lc H Ha. induction Ha as [| a b c la lb lc Hp Ha IH]; constructor.
+  - apply (H 0%nat a b c); try reflexivity. exact Hp.
+  - apply IH. intros j a' b' c' H1 H2 H3. apply (H (S j)); assumption.
+Qed.
+
+Lemma all3_update : forall {A B C} (P Q : A -> B -> C -> Prop) la lb lc i a' c',
+  all3 P la lb lc ->
+  (forall j a b c, j <> i -> nth_error la j = Some a -> nth_error lb j = Some b ->
+                   nth_error lc j = Some c -> P a b c -> Q a b c) ->
+  (forall b, nth_error lb i = Some b -> Q a' b c') ->
+  all3 Q (replace_nth la i a') lb (replace_nth lc i c').
+Proof.
+  intros A B C P Q la lb lc i a' c' H. revert i.
+  induction H as [| a0 b0 c0 la lb lc Hp H IH]; intros i Hoth Hnew.
+  - destruct i; constructor.
+  - destruct i as [|i]; cbn [replace_nth].
+    + constructor; [apply Hnew; reflexivity|].
+      eapply all3_impl_idx; [| exact H]. intros j a b c H1 H2 H3.
+      apply (Hoth (S j)); [discriminate | assumption..].
+    + constructor.
+      * apply (Hoth 0%nat a0 b0 c0); [discriminate | reflexivity..| exact Hp].
+      * apply IH.
+        -- intros j a b c Hne. apply (Hoth (S j)). congruence.
+        -- intros b Hb. apply Hnew. exact Hb.
+Qed.
+
+Lemma all3_serials : forall rw log trs cfgs pktss,
+  all3 (T3 rw log) trs cfgs pktss -> map tr_serial trs = map tr_serial cfgs.
+Proof.
+  intros rw log trs cfgs pktss H. induction H as [| a b c la lb lc ((Hs & _) & _) H IH]; [reflexivity|].
+  cbn [map]. now rewrite Hs, IH.
+Qed.
+
+(* packets per track: headers, then the accepted packets *)
+Fixpoint pkts_of (cfgs : list track) (pss : list (list (list N * N))) : list (list pkt3) :=
+  match cfgs, pss with
+  | c :: ct, ps :: pt => ([hdr_id c; hdr_tags c] ++ data_pkts 0 ps) :: pkts_of ct pt
+  | _, _ => []
+  end.
+
+Definition minv (w : mwriter) (cfgs : list track) (pss : list (list (list N * N)))
+           (log : list wpage) : Prop :=
+  mw_out w = bytes_of log /\ NoDup (map tr_serial cfgs) /\ length pss = length cfgs /\
+  map tr_prev_granule (mw_tracks w) = map (gsum 0) pss /\
+  if mw_started w then all3 (T3 (mw_rewriter w) log) (mw_tracks w) cfgs (pkts_of cfgs pss)
+  else log = [] /\ pss = map (fun _ => []) cfgs /\
+       all3 (T3 (mw_rewriter w) []) (mw_tracks w) cfgs (map (fun _ => []) cfgs).
+
+Lemma add_each_hdrs : forall cfgs,
+  add_each (add_each (map (fun _ => []) cfgs) cfgs hdr_id) cfgs hdr_tags
+  = pkts_of cfgs (map (fun _ => []) cfgs).
+Proof. induction cfgs as [|c cfgs IH]; [reflexivity|]. cbn. now rewrite IH. Qed.
+
+Lemma hdr_static : (forall a b, same_static a b -> hdr_id a = hdr_id b) /\
+                   (forall a b, same_static a b -> hdr_tags a = hdr_tags b).
+Proof. split; intros a b H; apply (same_static_hdrs a b H). Qed.
+
+Lemma start_locked_inv : forall w cfgs pss log,
+  minv w cfgs pss log ->
+  exists w' log',
+    start_locked w = Ok w' /\ mw_started w' = true /\ mw_rewriter w' = mw_rewriter w /\
+    minv w' cfgs pss log' /\
+    (mw_started w = true -> w' = w /\ log' = log).
+Proof.
+  intros w cfgs pss log (Hout & Hnd & Hlen & Hgr & Hst). unfold start_locked.
+  destruct (mw_started w) eqn:Es.
+  - exists w, log. split; [reflexivity|]. split; [exact Es|]. split; [reflexivity|]. split; [| auto].
+    unfold minv. rewrite Es. auto.
+  - destruct Hst as (-> & -> & Hall).
+    pose proof (all3_serials _ _ _ _ _ Hall) as Hser.
+    change (write_id_header writer_table (mw_rewriter w)) with (page_step (mw_rewriter w) hdr_id).
+    change (write_comment_header writer_table (mw_rewriter w)) with (page_step (mw_rewriter w) hdr_tags).
+    rewrite Hout.
+    destruct (each_track_pages (mw_rewriter w) hdr_id (proj1 hdr_static) _ _ _ [] [] Hall
+                (Forall_nil _) ltac:(rewrite Hser; exact Hnd) ltac:(intros t o _ [])) 
+      as (log1 & trs1 & He1 & Hall1 & _ & Hg1 & _).
+    rewrite He1.
+    pose proof (all3_serials _ _ _ _ _ Hall1) as Hser1.
+    destruct (each_track_pages (mw_rewriter w) hdr_tags (proj2 hdr_static) _ _ _ log1 [] Hall1
+                (Forall_nil _) ltac:(rewrite Hser1; exact Hnd) ltac:(intros t o _ []))
+      as (log2 & trs2 & He2 & Hall2 & _ & Hg2 & _).
+    rewrite He2.
+    eexists. exists log2. split; [reflexivity|]. cbn [mw_started mw_rewriter].
+    split; [reflexivity|]. split; [reflexivity|]. split; [| discriminate].
+    unfold minv. cbn [mw_out mw_tracks mw_started mw_rewriter].
+    split; [reflexivity|]. split; [exact Hnd|]. split; [exact Hlen|].
+    split; [rewrite Hg2, Hg1; exact Hgr|].
+    rewrite add_each_hdrs in Hall2. exact Hall2.
+Qed.
